@@ -100,11 +100,11 @@ def factory_obligations(chk, mod, fname, noop):
     I.stubs[f"{mod}._get_unmarshaller"] = Stub("_get_unmarshaller", get_unm, None)
 
     def havoc(I, path, env, k):
-        c = env.lookup("context")
+        c = env.lookup(env.find(lambda v: isinstance(v, Obj) and "$dict" in v.fields, "type context"))
         c.fields["$dict"] = SDict.from_arrays(path.fresh("c_has", z3.ArraySort(Val, BoolS)), path.fresh("c_val", z3.ArraySort(Val, Val)))
 
     def inv(I, path, env, k):
-        c = env.lookup("context")
+        c = env.lookup(env.find(lambda v: isinstance(v, Obj) and "$dict" in v.fields, "type context"))
         d = c.fields["$dict"]
         return [
             Q([IntS], lambda i: z3.Implies(z3.And(i >= 0, i < k), z3.And(d.has(node_type(i)), d.has(node_unw(i)))),
